@@ -12,7 +12,7 @@ Driver for C26: `c26 <mode>|<msz>|<hex:bucket …>|<op …>`.
   `meta` is hex (`-` = empty), `data` is `len.b` (bytes `(b+j) % 251`), `exp` is `*` (check
   always passes) or hex (check passes iff the stored meta equals it).
 Reply: one `result@layout` per operation (`=` for an unchanged layout), joined by `;`, then
-`;L=<final layout>;V=<verify>`.
+`;L=<final layout>;V=<verify>;O=<names in objects() order>`.
 -/
 namespace RoutinatorModel.Drv
 open RoutinatorModel.Archive
@@ -180,7 +180,11 @@ def runC26 (arg : String) : String :=
           (init, 0, [], "", true)
         if !ok then "bad-op"
         else
+          let objs := match objects c f with
+            | none => "corrupt"
+            | some l => joinWith "," (l.map fun e => t.idx e.1)
           joinWith ";" outs.reverse ++ ";L=" ++ showLayout c t f ++ ";V=" ++ showBool (verify c f)
+            ++ ";O=" ++ objs
     | _, _ => "bad-op"
   | _ => "bad-op"
 
